@@ -31,6 +31,7 @@ import Cog.Sem.DefaultsPyHolds
 import Cog.Sem.DefaultsPasses
 import Cog.Gen.Chains
 import Cog.Front.KeepsDefaults
+import Cog.Front.OpenApiKeeps
 namespace Cog.Sem.Defaults
 open Cog.Sem Cog.IR Cog.Passes Cog.Gen.Chains
 open PyVal (pyEncode)
@@ -614,6 +615,137 @@ theorem C10_jsonschema_default_counterexample : ¬ C10_jsonschema_default_full :
   | panic _ => simp [hS] at hw
 
 end FE
+/-! ### the same for OpenAPI inputs (front-end model: Cog/Front/OpenApi*.lean; tie: stream `c01-front-oa`)
+    `default` reaches the IR as the raw Go value of the loader (float64 for JSON numbers: an integer default is a float64
+    holding an integer, which `goFits` admits); constants come from `^literal$` patterns. -/
+
+namespace OA
+open Cog.Front.OpenApi Cog.Front.Keeps Cog.Sem.Src
+
+/-- the post-chain field of a typed scalar property, from the source keywords alone -/
+def srcField (r : OSR) (p : String × OSR) (t : String) : Field :=
+  scalarImg p.1 (scalarOf (attrsOf p.2) t) ((attrsOf r).required.contains p.1)
+
+theorem C10_openapi_default_go_end_to_end_partial
+    (pkg : String) (fuel : Nat) (cs : Components) (S Sg : Schemas) (name : String) (r : OSR) (p : String × OSR) (t : String)
+    (fuel' : Nat) (jg j : Json)
+    (hk : keysNodupC cs = true) (hS : frontEnd pkg fuel cs = .ok S)
+    (hl : lookupComp cs name = some r) (hobj : isObjectNode r = true) (hsorted : sortedKeys (propsOf r) = true)
+    (hp : p ∈ propsOf r) (hsc : scalarNode p.2 = some t)
+    (hP : Plain S = true) (hrun : runChain goChain S = .ok Sg) (hgo : goDefaults fuel' Sg pkg name = .ok jg)
+    (hfit : goFits [] (srcField r p t) = true) (hj : declaredOf (srcField r p t) = some j) :
+    holds jg p.1 j = true := by
+  obtain ⟨o, fs, f, ho, hty, hsp, hsn, hf, hname, hreq, hfty, hbuilt⟩ := keeps_property pkg fuel cs S hk hS hl hobj hp hsc
+  rw [Cog.Front.OpenApi.sortFields_id hsorted hbuilt] at hty
+  obtain ⟨hloc, hty'⟩ := Cog.Front.JsonSchema.chain_struct goChain (by decide) S Sg hP hrun pkg name o ho fs [] none Cog.Front.JsonSchema.m0 hty
+  have hscal : f.ty.isScalar = true := by rw [hfty]; exact scalarOf_isScalar _ t
+  obtain ⟨hn1, hr1, ht1⟩ := imgField_parts f
+  have hsrc : (Cog.Front.JsonSchema.imgField f).ty = (srcField r p t).ty := by rw [ht1, srcField, hname, hreq, hfty]
+  have hreq' : (Cog.Front.JsonSchema.imgField f).required = (srcField r p t).required := by
+    rw [hr1, hreq]
+    exact ((imgField_parts { name := p.1, ty := scalarOf (attrsOf p.2) t, required := (attrsOf r).required.contains p.1 }).2.1).symm
+  have hnd : namesNodup (NotRequiredFieldAsNullableType.vFields fs) = true := by
+    apply defaults_namesNodup
+    rw [Cog.Front.JsonSchema.vFields_names, Cog.Front.OpenApi.fieldsBuilt_names hbuilt]
+    exact Cog.Front.OpenApi.sortedKeys_namesNodup hsorted
+  have := C10_go_partial fuel' Sg pkg name _ _ [] Cog.Front.JsonSchema.m0 jg (Cog.Front.JsonSchema.imgField f) j hgo hloc hty'
+    (by simpa [setTy] using hsp) (by simpa [setTy] using hsn) hnd (Cog.Front.JsonSchema.vFields_mem_scalar hf hscal)
+    (by rw [goFits_scalar_congr Sg [] _ _ hsrc hreq' (imgField_scalar hscal)]; exact hfit)
+    (by rw [declaredOf_congr _ _ hsrc]; exact hj)
+  rw [hn1, hname] at this
+  exact this
+
+theorem C10_openapi_default_py_end_to_end_partial
+    (pkg : String) (fuel : Nat) (cs : Components) (S Sp : Schemas) (name : String) (r : OSR) (p : String × OSR) (t : String)
+    (fuel' : Nat) (jp j : Json)
+    (hk : keysNodupC cs = true) (hS : frontEnd pkg fuel cs = .ok S)
+    (hl : lookupComp cs name = some r) (hobj : isObjectNode r = true) (hsorted : sortedKeys (propsOf r) = true)
+    (hp : p ∈ propsOf r) (hsc : scalarNode p.2 = some t)
+    (hP : PlainN S = true) (hrun : runChain pythonChain S = .ok Sp) (hpy : pyDefaults fuel' Sp pkg name = .ok jp)
+    (hfit : pyFits [] (srcField r p t) = true) (hj : declaredOf (srcField r p t) = some j) :
+    holds jp p.1 j = true := by
+  obtain ⟨o, fs, f, ho, hty, hsp, hsn, hf, hname, hreq, hfty, hbuilt⟩ := keeps_property pkg fuel cs S hk hS hl hobj hp hsc
+  rw [Cog.Front.OpenApi.sortFields_id hsorted hbuilt] at hty
+  have hSp := Cog.Front.JsonSchema.pyChain_exact pythonChain (by decide) S Sp hP hrun
+  have hnr : (fs.all fun f => nrTy f.ty) = true := by
+    have := PlainN_located hP ho
+    rw [hty] at this
+    simpa [nrObjTy] using this
+  have hloc : Schemas.locateObject Sp pkg name = some (pyObj o) := by rw [hSp, locateObject_pyS, ho]; rfl
+  have hty' := pyObj_struct o fs [] none Cog.Front.JsonSchema.m0 hty hnr
+  have hscal : f.ty.isScalar = true := by rw [hfty]; exact scalarOf_isScalar _ t
+  obtain ⟨hn1, hr1, ht1⟩ := imgField_parts f
+  have himg : ({ (NotRequiredFieldAsNullableType.fixField f f.ty) with ty := imgTy f } : Field) = Cog.Front.JsonSchema.imgField f := by
+    rw [imgTy_scalar f hscal]; rfl
+  have hmem : Cog.Front.JsonSchema.imgField f ∈ fs.map (fun f => ({ (NotRequiredFieldAsNullableType.fixField f f.ty) with ty := imgTy f } : Field)) := by
+    rw [← himg]; exact List.mem_map.mpr ⟨f, hf, rfl⟩
+  have hsrc : (Cog.Front.JsonSchema.imgField f).ty = (srcField r p t).ty := by rw [ht1, srcField, hname, hreq, hfty]
+  have hnd : namesNodup (fs.map (fun f => ({ (NotRequiredFieldAsNullableType.fixField f f.ty) with ty := imgTy f } : Field))) = true := by
+    apply defaults_namesNodup
+    have : (fs.map (fun f => ({ (NotRequiredFieldAsNullableType.fixField f f.ty) with ty := imgTy f } : Field))).map (·.name) = fs.map (·.name) := by
+      rw [List.map_map]
+      apply List.map_congr_left
+      intro g _
+      exact fixField_name' g
+    rw [this, Cog.Front.OpenApi.fieldsBuilt_names hbuilt]
+    exact Cog.Front.OpenApi.sortedKeys_namesNodup hsorted
+  have := C10_py_partial fuel' Sp pkg name _ _ [] none Cog.Front.JsonSchema.m0 jp (Cog.Front.JsonSchema.imgField f) j hpy hloc hty' hnd hmem
+    (by rw [pyFits_scalar_congr Sp [] _ _ hsrc (imgField_scalar hscal)]; exact hfit)
+    (by rw [declaredOf_congr _ _ hsrc]; exact hj)
+  rw [hn1, hname] at this
+  exact this
+
+/-- OpenAPI property with a fitting default / pattern constant ⇒ both constructors hold it, and agree on scalars -/
+theorem C10_openapi_default_end_to_end_partial
+    (pkg : String) (fuel : Nat) (cs : Components) (S Sg Sp : Schemas) (name : String) (r : OSR) (p : String × OSR) (t : String)
+    (fg fp : Nat) (jg jp j : Json)
+    (hk : keysNodupC cs = true) (hS : frontEnd pkg fuel cs = .ok S)
+    (hl : lookupComp cs name = some r) (hobj : isObjectNode r = true) (hsorted : sortedKeys (propsOf r) = true)
+    (hp : p ∈ propsOf r) (hsc : scalarNode p.2 = some t)
+    (hPg : Plain S = true) (hPp : PlainN S = true)
+    (hrg : runChain goChain S = .ok Sg) (hrp : runChain pythonChain S = .ok Sp)
+    (hgo : goDefaults fg Sg pkg name = .ok jg) (hpy : pyDefaults fp Sp pkg name = .ok jp)
+    (hfg : goFits [] (srcField r p t) = true) (hfp : pyFits [] (srcField r p t) = true)
+    (hj : declaredOf (srcField r p t) = some j) :
+    holds jg p.1 j = true ∧ holds jp p.1 j = true ∧ (flat j = true → memberOf jg p.1 = memberOf jp p.1) := by
+  have h1 := C10_openapi_default_go_end_to_end_partial pkg fuel cs S Sg name r p t fg jg j hk hS hl hobj hsorted hp hsc hPg hrg hgo hfg hj
+  have h2 := C10_openapi_default_py_end_to_end_partial pkg fuel cs S Sp name r p t fp jp j hk hS hl hobj hsorted hp hsc hPp hrp hpy hfp hj
+  exact ⟨h1, h2, fun hf => by rw [holds_flat_member hf h1, holds_flat_member hf h2]⟩
+
+def scO (a : OAttrs) : OSR := .mk "" true "" (.mk a [] [] [] [] .none .none)
+
+/-- `R = {b?: boolean = true, i: integer(int64) = 3 (float64 3 in the loader's value), pm?: string ^math$, s?: string = "hey"}` -/
+def exPropsO : List (String × OSR) := [
+  ("b", scO { types := some ["boolean"], dflt := .bool true }),
+  ("i", scO { types := some ["integer"], format := "int64", dflt := .float "f64" "3" }),
+  ("pm", scO { types := some ["string"], pattern := "^math$" }),
+  ("s", scO { types := some ["string"], dflt := .str "hey", maxLength := some 5 })]
+def exRootO : OSR := .mk "" true "" (.mk { types := some ["object"], required := ["i"], addlHas := some false } [] [] [] exPropsO .none .none)
+def exCompsO : Components := [("R", exRootO)]
+def expectedO : List (String × String × Json) :=
+  [("b", "boolean", .bool true), ("i", "integer", .num 12), ("pm", "string", .str "math"), ("s", "string", .str "hey")]
+
+example :
+    keysNodupC exCompsO = true ∧ isObjectNode exRootO = true ∧ sortedKeys (propsOf exRootO) = true ∧
+    (exPropsO.map fun p => scalarNode p.2) = [some "boolean", some "integer", some "string", some "string"] ∧
+    (expectedO.all fun e => match exPropsO.find? (fun p => p.1 == e.1) with
+      | some p => goFits [] (srcField exRootO p e.2.1) && pyFits [] (srcField exRootO p e.2.1) &&
+                  (match declaredOf (srcField exRootO p e.2.1) with | some j => j == e.2.2 | none => false)
+      | none => false) = true ∧
+    (match frontEnd "p" 8 exCompsO with
+     | .ok S =>
+       Plain S && PlainN S &&
+       (match runChain goChain S, runChain pythonChain S with
+        | .ok Sg, .ok Sp =>
+          (match goDefaults 8 Sg "p" "R", pyDefaults 8 Sp "p" "R" with
+           | .ok jg, .ok jp => expectedO.all fun e => holds jg e.1 e.2.2 && holds jp e.1 e.2.2
+           | _, _ => false)
+        | _, _ => false)
+     | _ => false) = true := by
+  refine ⟨by decide +kernel, by decide +kernel, by decide +kernel, by decide +kernel, by decide +kernel, by decide +kernel⟩
+
+end OA
+
 -- ---- END block of the c01-front builder ----
 
 end Cog.Sem.Defaults
